@@ -309,6 +309,7 @@ class Sim:
         self.max_visits = max_visits
         self.npaths = 0
         self.utf8_by_type = False
+        self.structural_box = False
         self.statics = {}
         self.adts = {}
         for c in crates:
@@ -984,6 +985,14 @@ class Sim:
                 r = self.call_closure(clo, list(tup.fields), fn, env, bb, t, path, depth, cont)
                 if r is not None:
                     return r
+        # next() on a std adaptor that _skip resolved to the advanced local iterator itself
+        if "std::iter::Iterator::next" in names and len(args) == 1:
+            st = (t["callee"].get("substs") or [""])[0]
+            itv = self._deref(args[0], path)
+            if st.startswith("std::iter::Skip<") and isinstance(itv, Adt) and st[len("std::iter::Skip<"):].split("<")[0] == itv.adt:
+                nf = self._local_next(itv.adt)
+                if nf is not None and depth < self.max_depth:
+                    return self._inline(fn, env, bb, t, path, depth, nf, args, cont)
         # higher-order std adaptors applied to known closures
         ho = self._higher_order(fn, env, bb, t, args, path, depth, cont, ev)
         if ho is not None:
@@ -1094,6 +1103,25 @@ class Sim:
 
         return self._inline_multi(fn, env, bb, t, path, depth, next_fn, [it], after_next)
 
+    def _skip(self, fn, env, bb, t, path, depth, cont, itref, next_fn, n):
+        """Iterator::skip(n) over a local iterator: next() is evaluated n times now (the adaptor does the same on
+        its first use and the local iterators have no side effects besides advancing) and the advanced iterator
+        stands for the adaptor."""
+        if n <= 0:
+            return [cont(self._deref(itref, path), path, env)]
+        if depth >= self.max_depth:
+            return [cont(UNK, path, env)]
+
+        def after_next(rv, sp, e, tr):
+            it2 = tr(itref)
+            if not isinstance(rv, Adt):
+                return [cont(UNK, sp, e)]
+            if rv.variant == 0:
+                return [cont(self._deref(it2, sp), sp, e)]
+            return self._skip(fn, e, bb, t, sp, depth, cont, it2, next_fn, n - 1)
+
+        return self._inline_multi(fn, env, bb, t, path, depth, next_fn, [itref], after_next)
+
     def _local_next(self, self_ty):
         """The local `Iterator::next` implementation for an iterator type, if any."""
         base = self_ty.split("<")[0]
@@ -1156,6 +1184,11 @@ class Sim:
             nf = self._local_next(substs[0]) if substs else None
             if nf is not None:
                 return self._find_map(fn, env, bb, t, path, depth, cont, args[0], f, nf, 0)
+        if p == "std::iter::Iterator::skip" and isinstance(f, int) and 0 <= f <= 4 and isinstance(x, Adt):
+            substs = t["callee"].get("substs") or []
+            nf = self._local_next(substs[0]) if substs else None
+            if nf is not None:
+                return self._skip(fn, env, bb, t, path, depth, cont, Ref([x], 0, ()), nf, f)
         if p in (O + "map_or_else", R + "map_or_else") and len(args) == 3 and isinstance(x, Adt) \
                 and isinstance(args[1], (Closure, FnItem)) and isinstance(args[2], (Closure, FnItem)):
             some = x.variant == (1 if p.startswith(O) else 0)
@@ -1499,6 +1532,9 @@ class Sim:
                 return ("value", a)
             return None
         if p == "std::boxed::Box::<T>::new":
+            if self.structural_box:
+                # Box { 0: Unique { pointer: NonNull<T> }, 1: alloc } as the lowered MIR dereferences it
+                return ("value", Adt("std::boxed::Box", 0, [Adt("std::ptr::Unique", 0, [Ref([args[0]], 0, ())]), UNK]))
             return ("value", args[0])
         if p.endswith("::unsigned_abs") or p.endswith("::abs"):
             x = d[0]
